@@ -17,6 +17,7 @@ structure Inv (s : State) : Prop where
   sidc : ∀ r ∈ s.reqs, r.1 = s.sid
   qcap : s.wrQ.length ≤ maxChanBacklog ∧ s.rdQ.length ≤ maxChanBacklog
   fl : ∀ snd wrSz k, s.wpc = .flight snd wrSz k → wrSz ≤ maxPayloadLength
+  rt : ∀ snd wrSz k, s.wpc = .retry snd wrSz k → s.failed = true ∧ wrSz ≤ maxPayloadLength
 
 theorem drop_nil {s : State} (h : Inv s) (hne : exited s = false) : s.dropped = [] := by
   by_cases hd : s.dropped = []
@@ -35,7 +36,8 @@ theorem inv_pc (s t : State) (h : Inv s)
     (e14 : exited s = true → exited t = true)
     (hup : pendingUp t = pendingUp s) (hdown : pendingDown t = pendingDown s)
     (hfl : inFlight t = inFlight s)
-    (hflb : ∀ snd wrSz k, t.wpc = .flight snd wrSz k → wrSz ≤ maxPayloadLength) : Inv t := by
+    (hflb : ∀ snd wrSz k, t.wpc = .flight snd wrSz k → wrSz ≤ maxPayloadLength)
+    (hrtb : ∀ snd wrSz k, t.wpc ≠ .retry snd wrSz k) : Inv t := by
   constructor
   · rw [e9, bodies, e6, hup, e1, e5]; exact h.up
   · rw [e10, e3, e2, hdown, e7, e12]; exact h.down
@@ -46,16 +48,17 @@ theorem inv_pc (s t : State) (h : Inv s)
   · rw [e6, e11]; exact h.sidc
   · rw [e1, e2]; exact h.qcap
   · exact hflb
+  · intro snd wrSz k hk; exact absurd hk (hrtb snd wrSz k)
 
 theorem inv_writeCall (s : State) (b : Bytes) (h : Inv s) : Inv (stepWriteCall s b) := by
   unfold stepWriteCall
   split
   · exact h
   · split
-    · exact ⟨h.up, h.down, h.drop, h.rdwait, h.bound, h.flight, h.sidc, h.qcap, h.fl⟩
+    · exact ⟨h.up, h.down, h.drop, h.rdwait, h.bound, h.flight, h.sidc, h.qcap, h.fl, h.rt⟩
     · split
-      · exact ⟨h.up, h.down, h.drop, h.rdwait, h.bound, h.flight, h.sidc, h.qcap, h.fl⟩
-      · exact ⟨h.up, h.down, h.drop, h.rdwait, h.bound, h.flight, h.sidc, h.qcap, h.fl⟩
+      · exact ⟨h.up, h.down, h.drop, h.rdwait, h.bound, h.flight, h.sidc, h.qcap, h.fl, h.rt⟩
+      · exact ⟨h.up, h.down, h.drop, h.rdwait, h.bound, h.flight, h.sidc, h.qcap, h.fl, h.rt⟩
 
 theorem inv_writeEnq (s : State) (h : Inv s) : Inv (stepWriteEnq s) := by
   unfold stepWriteEnq
@@ -63,10 +66,10 @@ theorem inv_writeEnq (s : State) (h : Inv s) : Inv (stepWriteEnq s) := by
   · exact h
   · next b _ =>
     split
-    · exact ⟨h.up, h.down, h.drop, h.rdwait, h.bound, h.flight, h.sidc, h.qcap, h.fl⟩
+    · exact ⟨h.up, h.down, h.drop, h.rdwait, h.bound, h.flight, h.sidc, h.qcap, h.fl, h.rt⟩
     · split
       · next hlen =>
-        refine ⟨?_, h.down, h.drop, h.rdwait, h.bound, h.flight, h.sidc, ?_, h.fl⟩
+        refine ⟨?_, h.down, h.drop, h.rdwait, h.bound, h.flight, h.sidc, ?_, h.fl, h.rt⟩
         · intro hf
           have := h.up hf
           simp only [say, bodies, pendingUp] at this ⊢
@@ -82,9 +85,9 @@ theorem inv_readCall (fixed : Bool) (s : State) (n : Nat) (h : Inv s) :
   · exact h
   · next hrd =>
     split
-    · exact ⟨h.up, h.down, h.drop, h.rdwait, h.bound, h.flight, h.sidc, h.qcap, h.fl⟩
+    · exact ⟨h.up, h.down, h.drop, h.rdwait, h.bound, h.flight, h.sidc, h.qcap, h.fl, h.rt⟩
     · split
-      · refine ⟨h.up, ?_, h.drop, ?_, h.bound, h.flight, h.sidc, h.qcap, h.fl⟩
+      · refine ⟨h.up, ?_, h.drop, ?_, h.bound, h.flight, h.sidc, h.qcap, h.fl, h.rt⟩
         · have := h.down
           simp only [say, pendingDown] at this ⊢
           rw [List.flatten_append, ← this]
@@ -92,7 +95,7 @@ theorem inv_readCall (fixed : Bool) (s : State) (n : Nat) (h : Inv s) :
           rw [← List.append_assoc (s.rdBuf.take n), List.take_append_drop]
         · intro m hm; simp only [say] at hm; rw [hrd] at hm; cases hm
       · next hbuf =>
-        refine ⟨h.up, h.down, h.drop, ?_, h.bound, h.flight, h.sidc, h.qcap, h.fl⟩
+        refine ⟨h.up, h.down, h.drop, ?_, h.bound, h.flight, h.sidc, h.qcap, h.fl, h.rt⟩
         intro m _; simpa using hbuf
 
 theorem inv_readDeq (s : State) (h : Inv s) : Inv (stepReadDeq s) := by
@@ -103,7 +106,7 @@ theorem inv_readDeq (s : State) (h : Inv s) : Inv (stepReadDeq s) := by
     have hb := h.rdwait n hrd
     split
     · next b rest hq =>
-      refine ⟨?_, ?_, h.drop, ?_, h.bound, h.flight, h.sidc, ?_, h.fl⟩
+      refine ⟨?_, ?_, h.drop, ?_, h.bound, h.flight, h.sidc, ?_, h.fl, h.rt⟩
       · intro hf; have := h.up hf; simpa [say, bodies, pendingUp] using this
       · have := h.down
         simp only [say, pendingDown] at this ⊢
@@ -115,15 +118,15 @@ theorem inv_readDeq (s : State) (h : Inv s) : Inv (stepReadDeq s) := by
       · have := h.qcap; rw [hq] at this; simp only [say, List.length_cons] at this ⊢
         exact ⟨this.1, by omega⟩
     · split
-      · refine ⟨h.up, h.down, h.drop, ?_, h.bound, h.flight, h.sidc, h.qcap, h.fl⟩
+      · refine ⟨h.up, h.down, h.drop, ?_, h.bound, h.flight, h.sidc, h.qcap, h.fl, h.rt⟩
         intro m hm; simp [say] at hm
       · exact h
 
 theorem inv_close (s : State) (h : Inv s) : Inv (stepClose s) := by
   unfold stepClose
   split
-  · exact ⟨h.up, h.down, h.drop, h.rdwait, h.bound, h.flight, h.sidc, h.qcap, h.fl⟩
-  · exact ⟨h.up, h.down, fun hd => ⟨rfl, (h.drop hd).2⟩, h.rdwait, h.bound, h.flight, h.sidc, h.qcap, h.fl⟩
+  · exact ⟨h.up, h.down, h.drop, h.rdwait, h.bound, h.flight, h.sidc, h.qcap, h.fl, h.rt⟩
+  · exact ⟨h.up, h.down, fun hd => ⟨rfl, (h.drop hd).2⟩, h.rdwait, h.bound, h.flight, h.sidc, h.qcap, h.fl, h.rt⟩
 
 theorem bodies_snoc (s : State) (r : Nat × Bytes) (t : State) (ht : t.reqs = s.reqs ++ [r]) :
     bodies t = bodies s ++ r.2 := by
@@ -133,7 +136,7 @@ theorem bodies_snoc (s : State) (r : Nat × Bytes) (t : State) (ht : t.reqs = s.
 theorem inv_issue (s : State) (snd : Bytes) (h : Inv s) (hpc : s.wpc = .coal snd) :
     Inv { s with reqs := s.reqs ++ [(s.sid, snd.take (min snd.length maxPayloadLength))],
                  wpc := .flight snd (min snd.length maxPayloadLength) 1 } := by
-  refine ⟨?_, ?_, (fun hd => absurd (drop_nil h (by simp [exited, hpc])) hd), h.rdwait, ?_, ?_, ?_, h.qcap, ?_⟩
+  refine ⟨?_, ?_, (fun hd => absurd (drop_nil h (by simp [exited, hpc])) hd), h.rdwait, ?_, ?_, ?_, h.qcap, ?_, ?_⟩
   · intro hf
     have := h.up hf
     simp only [pendingUp, hpc] at this
@@ -153,6 +156,7 @@ theorem inv_issue (s : State) (snd : Bytes) (h : Inv s) (hpc : s.wpc = .coal snd
     · exact h.sidc r hr
     · simp at hr; subst hr; rfl
   · intro snd' wrSz k hk; simp at hk; omega
+  · intro snd' wrSz' k' hk; simp at hk
 
 theorem inv_worker (s : State) (h : Inv s) : Inv (stepWorker s) := by
   unfold stepWorker
@@ -161,7 +165,7 @@ theorem inv_worker (s : State) (h : Inv s) : Inv (stepWorker s) := by
     split
     · next b rest hq =>
       split
-      · refine ⟨?_, ?_, (fun hd => absurd (drop_nil h (by simp [exited, hpc])) hd), h.rdwait, h.bound, ?_, h.sidc, ?_, ?_⟩
+      · refine ⟨?_, ?_, (fun hd => absurd (drop_nil h (by simp [exited, hpc])) hd), h.rdwait, h.bound, ?_, h.sidc, ?_, ?_, ?_⟩
         · intro hf
           have := h.up hf
           simp only [pendingUp, hpc, hq] at this
@@ -172,6 +176,7 @@ theorem inv_worker (s : State) (h : Inv s) : Inv (stepWorker s) := by
         · have := h.qcap; rw [hq] at this; simp only [List.length_cons] at this
           exact ⟨by simp only; omega, this.2⟩
         · intro snd' wrSz k hk; simp at hk
+        · intro snd' wrSz' k' hk; simp at hk
       · exact inv_issue s snd h hpc
     · exact inv_issue s snd h hpc
   · next snd wrSz body hpc =>
@@ -182,7 +187,7 @@ theorem inv_worker (s : State) (h : Inv s) : Inv (stepWorker s) := by
     · apply inv_pc s _ h <;> first | rfl | simp [pendingUp, pendingDown, inFlight, exited, hpc]
   · next body hpc =>
     split
-    · refine ⟨?_, ?_, (fun hd => absurd (drop_nil h (by simp [exited, hpc])) hd), h.rdwait, h.bound, ?_, h.sidc, ?_, ?_⟩
+    · refine ⟨?_, ?_, (fun hd => absurd (drop_nil h (by simp [exited, hpc])) hd), h.rdwait, h.bound, ?_, h.sidc, ?_, ?_, ?_⟩
       · intro hf; have := h.up hf; simp only [pendingUp, hpc] at this; simpa [pendingUp, bodies] using this
       · have := h.down
         simp only [pendingDown, hpc] at this
@@ -191,7 +196,26 @@ theorem inv_worker (s : State) (h : Inv s) : Inv (stepWorker s) := by
       · have := h.flight; simp only [inFlight, hpc] at this; simpa [inFlight] using this
       · simp only [List.length_append, List.length_cons, List.length_nil]; exact ⟨h.qcap.1, by omega⟩
       · intro snd' wrSz k hk; simp at hk
+      · intro snd' wrSz' k' hk; simp at hk
     · exact h
+  · next snd wrSz k hpc =>
+    -- the retry delay has passed: the same body is sent again
+    obtain ⟨hfail, hw⟩ := h.rt snd wrSz k hpc
+    refine ⟨?_, ?_, (fun hd => absurd (drop_nil h (by simp [exited, hpc])) hd), h.rdwait, ?_, ?_, ?_, h.qcap, ?_, ?_⟩
+    · intro hf; simp only at hf; rw [hfail] at hf; cases hf
+    · have := h.down; simp only [pendingDown, hpc] at this; simpa [pendingDown] using this
+    · intro r hr
+      rcases List.mem_append.mp hr with hr | hr
+      · exact h.bound r hr
+      · simp at hr; subst hr; simp only [List.length_take]; omega
+    · have := h.flight; simp only [inFlight, hpc] at this
+      simp only [inFlight, List.length_append, List.length_cons, List.length_nil]; simp at this ⊢; omega
+    · intro r hr
+      rcases List.mem_append.mp hr with hr | hr
+      · exact h.sidc r hr
+      · simp at hr; subst hr; rfl
+    · intro snd' wrSz' k' hk; simp at hk; omega
+    · intro snd' wrSz' k' hk; simp at hk
   · next hpc => apply inv_pc s _ h <;> first | rfl | simp [pendingUp, pendingDown, inFlight, exited, hpc]
   · next hpc => apply inv_pc s _ h <;> first | rfl | simp [pendingUp, pendingDown, inFlight, exited, hpc]
   · next hpc => apply inv_pc s _ h <;> first | rfl | simp [pendingUp, pendingDown, inFlight, exited, hpc]
@@ -216,7 +240,7 @@ theorem inv_step (fixed : Bool) (s : State) (c : Choice) (h : Inv s) : Inv (step
     simp only [step]
     split
     · next b rest hpc hq =>
-      refine ⟨?_, ?_, (fun hd => absurd (drop_nil h (by simp [exited, hpc])) hd), h.rdwait, h.bound, ?_, h.sidc, ?_, ?_⟩
+      refine ⟨?_, ?_, (fun hd => absurd (drop_nil h (by simp [exited, hpc])) hd), h.rdwait, h.bound, ?_, h.sidc, ?_, ?_, ?_⟩
       · intro hf
         have := h.up hf
         simp only [pendingUp, hpc, hq] at this
@@ -227,6 +251,7 @@ theorem inv_step (fixed : Bool) (s : State) (c : Choice) (h : Inv s) : Inv (step
       · have := h.qcap; rw [hq] at this; simp only [List.length_cons] at this
         exact ⟨by simp only; omega, this.2⟩
       · intro snd' wrSz k hk; simp at hk
+      · intro snd' wrSz' k' hk; simp at hk
     · exact h
   | wClose =>
     simp only [step]
@@ -242,7 +267,7 @@ theorem inv_step (fixed : Bool) (s : State) (c : Choice) (h : Inv s) : Inv (step
           by_cases hd : s.dropped = []
           · exact hd
           · have := (h.drop hd).2; simp [exited, hpc] at this
-        refine ⟨?_, ?_, fun _ => ⟨hcl, rfl⟩, h.rdwait, h.bound, ?_, h.sidc, h.qcap, ?_⟩
+        refine ⟨?_, ?_, fun _ => ⟨hcl, rfl⟩, h.rdwait, h.bound, ?_, h.sidc, h.qcap, ?_, ?_⟩
         · intro hf; have := h.up hf; simp only [pendingUp, hpc] at this; simpa [pendingUp, bodies] using this
         · have := h.down
           simp only [pendingDown, hpc, hd0] at this
@@ -250,6 +275,17 @@ theorem inv_step (fixed : Bool) (s : State) (c : Choice) (h : Inv s) : Inv (step
           simpa using this
         · have := h.flight; simp only [inFlight, hpc] at this; simpa [inFlight] using this
         · intro snd' wrSz k hk; simp at hk
+        · intro snd' wrSz' k' hk; simp at hk
+      · exact h
+    · next snd wrSz k hpc =>
+      obtain ⟨hfail, _⟩ := h.rt snd wrSz k hpc
+      split
+      · refine ⟨?_, ?_, (fun hd => absurd (drop_nil h (by simp [exited, hpc])) hd), h.rdwait, h.bound, ?_, h.sidc, h.qcap, ?_, ?_⟩
+        · intro hf; simp only at hf; rw [hfail] at hf; cases hf
+        · have := h.down; simp only [pendingDown, hpc] at this; simpa [pendingDown] using this
+        · have := h.flight; simp only [inFlight, hpc] at this; simpa [inFlight] using this
+        · intro snd' wrSz' k' hk; simp at hk
+        · intro snd' wrSz' k' hk; simp at hk
       · exact h
     · exact h
   | sOk body =>
@@ -257,7 +293,7 @@ theorem inv_step (fixed : Bool) (s : State) (c : Choice) (h : Inv s) : Inv (step
     split
     · next snd wrSz k hpc =>
       split
-      · refine ⟨?_, ?_, (fun hd => absurd (drop_nil h (by simp [exited, hpc])) hd), h.rdwait, h.bound, ?_, h.sidc, h.qcap, ?_⟩
+      · refine ⟨?_, ?_, (fun hd => absurd (drop_nil h (by simp [exited, hpc])) hd), h.rdwait, h.bound, ?_, h.sidc, h.qcap, ?_, ?_⟩
         · intro hf; have := h.up hf; simp only [pendingUp, hpc] at this; simpa [pendingUp, bodies] using this
         · have := h.down
           have hd0 := drop_nil h (by simp [exited, hpc])
@@ -267,6 +303,7 @@ theorem inv_step (fixed : Bool) (s : State) (c : Choice) (h : Inv s) : Inv (step
         · have := h.flight; simp only [inFlight, hpc] at this
           simp only [inFlight]; simp at this ⊢; omega
         · intro snd' wrSz' k' hk; simp at hk
+        · intro snd' wrSz' k' hk; simp at hk
       · exact h
     · exact h
   | sNon200 =>
@@ -275,36 +312,31 @@ theorem inv_step (fixed : Bool) (s : State) (c : Choice) (h : Inv s) : Inv (step
     · next snd wrSz k hpc =>
       have hw := h.fl snd wrSz k hpc
       split
-      · refine ⟨?_, ?_, (fun hd => absurd (drop_nil h (by simp [exited, hpc])) hd), h.rdwait, ?_, ?_, ?_, h.qcap, ?_⟩
-        · intro hf; cases hf
-        · have := h.down; simp only [pendingDown, hpc] at this; simpa [pendingDown] using this
-        · intro r hr
-          rcases List.mem_append.mp hr with hr | hr
-          · exact h.bound r hr
-          · simp at hr; subst hr; simp only [List.length_take]; omega
-        · have := h.flight; simp only [inFlight, hpc] at this
-          simp only [inFlight, List.length_append, List.length_cons, List.length_nil]; simp at this ⊢; omega
-        · intro r hr
-          rcases List.mem_append.mp hr with hr | hr
-          · exact h.sidc r hr
-          · simp at hr; subst hr; rfl
-        · intro snd' wrSz' k' hk; simp at hk; omega
-      · refine ⟨?_, ?_, (fun hd => absurd (drop_nil h (by simp [exited, hpc])) hd), h.rdwait, h.bound, ?_, h.sidc, h.qcap, ?_⟩
+      · refine ⟨?_, ?_, (fun hd => absurd (drop_nil h (by simp [exited, hpc])) hd), h.rdwait, h.bound, ?_, h.sidc, h.qcap, ?_, ?_⟩
         · intro hf; cases hf
         · have := h.down; simp only [pendingDown, hpc] at this; simpa [pendingDown] using this
         · have := h.flight; simp only [inFlight, hpc] at this
           simp only [inFlight]; simp at this ⊢; omega
+        · intro snd' wrSz' k' hk; simp at hk
+        · intro snd' wrSz' k' hk; simp at hk; exact ⟨rfl, by omega⟩
+      · refine ⟨?_, ?_, (fun hd => absurd (drop_nil h (by simp [exited, hpc])) hd), h.rdwait, h.bound, ?_, h.sidc, h.qcap, ?_, ?_⟩
+        · intro hf; cases hf
+        · have := h.down; simp only [pendingDown, hpc] at this; simpa [pendingDown] using this
+        · have := h.flight; simp only [inFlight, hpc] at this
+          simp only [inFlight]; simp at this ⊢; omega
+        · intro snd' wrSz' k' hk; simp at hk
         · intro snd' wrSz' k' hk; simp at hk
     · exact h
   | sFail =>
     simp only [step]
     split
     · next snd wrSz k hpc =>
-      refine ⟨?_, ?_, (fun hd => absurd (drop_nil h (by simp [exited, hpc])) hd), h.rdwait, h.bound, ?_, h.sidc, h.qcap, ?_⟩
+      refine ⟨?_, ?_, (fun hd => absurd (drop_nil h (by simp [exited, hpc])) hd), h.rdwait, h.bound, ?_, h.sidc, h.qcap, ?_, ?_⟩
       · intro hf; cases hf
       · have := h.down; simp only [pendingDown, hpc] at this; simpa [pendingDown] using this
       · have := h.flight; simp only [inFlight, hpc] at this
         simp only [inFlight]; simp at this ⊢; omega
+      · intro snd' wrSz' k' hk; simp at hk
       · intro snd' wrSz' k' hk; simp at hk
     · exact h
 
